@@ -163,7 +163,7 @@ func VerifC03Pure() {
 	case 4:
 		f = fn(blk(asg("r", node.List{}), asg("i", ilit(0)), whilel(bin("<", nm("i"), ilit(3)), blk(asg("r", bin("+", nm("r"), node.List{Elems: []node.Type{bin("+", nm("i"), nm("a"))}})), asg("i", bin("+", nm("i"), ilit(1))))), nm("r")), "a")
 	default: // reads a local that may never have been assigned
-		f = fn(blk(ifs(bin(">", nm("a"), k), asg("found", nm("a"))), node.List{Elems: []node.Type{nm("found"), nm("a")}}), "a")
+		f = fn(blk(ifs(bin(">", nm("a"), k), blk(asg("u", nm("a")), asg("w", nm("a")), asg("found", nm("a")))), node.List{Elems: []node.Type{nm("u"), nm("w"), nm("found"), nm("a")}}), "a")
 	}
 	vrt.Note("function", Src(f))
 	arg := lit()
